@@ -1,5 +1,6 @@
 import UflVerif.Model.Driver
 import UflVerif.Model.IndexPasses
+import UflVerif.Model.IndexSubst
 open UflVerif SExp
 
 /- (renumber e) | (rct e) | (expand e)  ->  (ok <expr>) | (raises) | (unsupported) -/
@@ -20,6 +21,10 @@ def answer (line : String) : String :=
   | some (.list [.atom "rctOld", e]) =>
     (match Expr.ofSExp e with
      | some x => showRes (Expr.rctOld x)
+     | none => "(parse-error)")
+  | some (.list [.atom "rctPlain", e]) =>
+    (match Expr.ofSExp e with
+     | some x => showRes (Expr.rctPlain x)
      | none => "(parse-error)")
   | some (.list [.atom "expand", e]) =>
     (match Expr.ofSExp e with
